@@ -793,7 +793,7 @@ impl Property for C20 {
     fn runs(&self, tier: Tier) -> u64 {
         match tier {
             Tier::Quick => 300_000,
-            Tier::Thorough => 3_000_000,
+            Tier::Thorough => 30_000_000,
         }
     }
     fn required_probes(&self) -> Vec<&'static str> {
